@@ -104,6 +104,7 @@ const (
 	aComplete   = "complete"   // t.Complete() explicitly
 	aRollback   = "rollback"   // t.Rollback() explicitly
 	aConflict   = "conflict"   // make the transaction fail: a conflicting transaction commits first
+	aTryReturn  = "tryreturn"  // return 7 inside try ... catch inside the block
 )
 
 type end struct {
